@@ -48,6 +48,10 @@ TEXT = {
    text='Contract proof on the real fiber_sleep (all uint32 seconds/useconds, any tick count): the published node has wake_time >= tick-count-under-lock + seconds*1000 + ceil(useconds/1000) without wrap-around, is complete (waiter set, fiber WAITING) and in the tree before the switch, everything under sleep_spinlock which is released only through spinlock_to_unlock; the libc shims sleep/usleep/nanosleep never hand fiber_sleep a shorter duration; fiber_fd_closed is memory-safe for every int descriptor. Bounded stand-in through the real fiber_event_wake_sleepers + waiter_insert + waiter_remove_less_than for every tree of <= 3 sleepers (4 thorough), symbolic keys and clock: only sleeping fibers are scheduled, each once, only after their tick has passed, every due one is woken, and - with a scheduler contract that releases the sleeper\'s stack-resident node - the waker never touches a node after scheduling its fiber. Two genuine defects found on the pinned tree (D3a use of the node after scheduling, D3b 32-bit duration overflow), fixed by fix: commits and recorded as fixed.',
    note='Tick >= 1 ms (it is 5 ms); tick counter < 2^62; nanosleep tv_sec fits uint32; spinlock/yield/scheduler by contract; BST induction out of reach (tree-level clauses bounded, labelled); fiber_sleep proved with waiter_insert on an empty tree (the arithmetic is independent of the tree); the arithmetic obligation needs the CaDiCaL back end (MiniSat times out).',
    technique='CBMC harness-mode contract proof on woven real code (CaDiCaL for the duration arithmetic), bounded stand-in for the sleeper tree', ref='5 C09, 9 D3a D3b'),
+ 'C15': dict(
+   text='Rely/guarantee refinement proofs on the real mpsc_fifo_push/trypop and spsc_fifo_push/trypop (woven header inlines) over a pool of real node objects in their roles (stub, successor, my node, previous tail, later node) with interference before every access (other producers swap the tail and link, the consumer advances): the consumer writes only head (to the LINKED successor, after having seen the link) and the data field of the node it takes out, returns the old stub carrying the next element\'s data, or NULL having seen the stub\'s next NULL with nothing changed; a producer terminates its node before it becomes reachable, swaps the tail once and links exactly the node the swap returned, once. Relaxed MPSC: push goes to the producer\'s own sub-queue; trypop tries the sub-queues round-robin from counter % n, each at most once, advances the counter by the number tried, and reports empty only after every sub-queue was tried (concrete n, all 2^64 counter values).',
+   note='Single consumer / single producer per SPSC queue (tokens assumed); SC; the order properties (per-producer FIFO, completed-before) follow from "sequence number = swap order" and the two contracts by inspection (no separate lemma file); relaxed MPSC instances n in {1,2,3,4} quick, {5,6,7,12} thorough (labelled bounded).',
+   technique='CBMC harness-mode refinement on woven real code with role pools of real node objects, rely/guarantee step monitor', ref='5 C15'),
 }
 NOT_YET = 'check not built yet at this commit (DESIGN.md section 5 describes the planned contracts)'
 checks, na = [], []
